@@ -392,6 +392,15 @@ Definition k_wal_rot := k_wal_rotation.
 Definition k_rdf_torn := k_rdf.
 Definition k_label_torn := k_label.
 Definition k_deadlock := k_label_deadlock.
+(** class of C20-K8: some thread addresses a node id that the starting graph does not contain
+    ([lon] = number of its node ids) while a DIFFERENT thread creates nodes — i.e. it guesses the
+    id of a node whose creation is still in flight (the id is handed out by a fetch_add long
+    before the node is inserted) *)
+Definition k_id_guess (lon : Z) (progs : list (list gop)) : bool :=
+  let n := length progs in
+  existsb (fun i => existsb (fun j => negb (Nat.eqb i j) &&
+     existsb (fun op => match op with GDeleteNode x | GAddLabel x _ | GRemoveLabel x _ => lon <=? x | _ => false end) (nth i progs []) &&
+     existsb (fun op => match op with GCreateNode _ => true | _ => false end) (nth j progs [])) (seq 0 n)) (seq 0 n).
 Definition k_buf_resize_pre (progs : list (list bop)) : bool :=
   existsb (existsb (fun op => match op with BResizePre _ _ => true | _ => false end)) progs.
 Definition k_buf_pre (progs : list (list bop)) : bool :=
